@@ -146,7 +146,7 @@ class C01(vlib.Driver):
             for algo in ("DQN", "DDPG"):       # AgentWrapper.clone (RSNorm supports the off-policy single-agent algorithms)
                 add(algo, "vector", False, "partial", 6, rng.randrange(100), wrapper=True)
             cases += custom_cases([("DQN", "vector"), ("DQN", "image")])
-            for algo in ("DQN", "NeuralUCB", "RainbowDQN"):     # extreme magnitudes (1e30, denormal, -0.0, inf, NaN) must be copied bit for bit
+            for algo in ("DQN", "NeuralUCB", "CQN"):     # extreme magnitudes (1e30, denormal, -0.0, inf, NaN) must be copied bit for bit
                 cases.append({"algo": algo, "family": "vector", "share": False, "netcfg": "partial", "seed": 9, "pop": 2,
                               "ops": [["learn", 0, 1], ["poke", 0, 1], ["clone", 0, None], ["clone", 2, 8], ["poke", 1, 2],
                                       ["score", 0, 5], ["score", 1, 9], ["score", 2, 3], ["score", 3, 1], ["select", [1, 0], True],
@@ -156,6 +156,10 @@ class C01(vlib.Driver):
                           "ops": [["learn", 0, 744], ["act", 0, 3], ["clone", 0, None], ["act", 0, 536], ["act", 2, 536, 0],
                                   ["learn", 0, 216], ["learn", 2, 216, 0], ["mutate", 2, "arch", 4], ["clone", 2, 7],
                                   ["learn", 1, 79], ["learn", 3, 2], ["learn", 0, 5]]})
+            for algo in ("MADDPG", "IPPO"):       # non-uniform shapes: agents with different observation sizes
+                cases.append({"algo": algo, "family": "vector", "share": False, "netcfg": "partial", "seed": 4, "pop": 2, "hetero": True,
+                              "ops": [["learn", 0, 1], ["clone", 0, None], ["act", 0, 2], ["act", 2, 2, 0], ["learn", 0, 3],
+                                      ["learn", 2, 3, 0], ["mutate", 2, "arch", 4], ["clone", 2, 7], ["learn", 1, 5], ["learn", 3, 6]]})
             cases.append({"algo": "IPPO", "family": "vector", "share": False, "netcfg": "partial", "seed": 3, "pop": 2, "ids": "rev",
                           "ops": [["learn", 0, 1], ["clone", 0, None], ["act", 0, 2], ["act", 2, 2, 0], ["learn", 0, 3],
                                   ["learn", 2, 3, 0], ["mutate", 2, "arch", 4], ["clone", 2, 7], ["learn", 1, 5], ["learn", 3, 6]]})
@@ -174,6 +178,13 @@ class C01(vlib.Driver):
                 c = {"algo": algo, "family": "vector", "share": False, "netcfg": "partial", "seed": 3, "pop": 2, "ids": "rev",
                      "ops": history(2, 8, rng)}
                 cases.append(c)
+                cases.append({"algo": algo, "family": "vector", "share": False, "netcfg": "partial", "seed": 4, "pop": 2, "hetero": True,
+                              "ops": history(2, 8, rng, OU=algo in evo.OU_ALGOS)})
+            for algo in ("DQN", "NeuralUCB", "CQN", "TD3"):
+                cases.append({"algo": algo, "family": "vector", "share": False, "netcfg": "partial", "seed": 9, "pop": 2,
+                              "ops": [["learn", 0, 1], ["poke", 0, 1], ["clone", 0, None], ["clone", 2, 8], ["poke", 1, 2],
+                                      ["score", 0, 5], ["score", 1, 9], ["score", 2, 3], ["score", 3, 1], ["select", [1, 0], True],
+                                      ["clone", 0, None], ["poke", 3, 3], ["learn", 2, 4]]})
             for algo in evo.RESNET_ALGOS:
                 for share in ([False, True] if algo in evo.SHARE_CAPABLE else [False]):
                     cases.append({"algo": algo, "family": "image", "share": share, "netcfg": "resnet", "seed": 7, "pop": 2,
@@ -203,6 +214,8 @@ class C01(vlib.Driver):
         spec = {k: case[k] for k in ("algo", "family", "share", "netcfg", "seed")}
         if case.get("ids"):
             spec["ids"] = case["ids"]
+        if case.get("hetero"):
+            spec["hetero"] = True
         # a population is built from ONE user net_config / hp_config, as EvolvableAlgorithm.population does
         shared_cfg = evo.net_config_for(case["netcfg"], case["family"])
         hp = evo.hp_config_for(case["algo"])
@@ -537,7 +550,7 @@ class C01(vlib.Driver):
         return out
 
     def key(self, case):
-        return json.dumps([case["algo"], case["family"], case["share"], case["netcfg"], bool(case.get("wrapper")), bool(case.get("tags")), case.get("ids"), [o[0] if o[0] != "mutate" else o[0] + ":" + o[2] for o in case["ops"]]])
+        return json.dumps([case["algo"], case["family"], case["share"], case["netcfg"], bool(case.get("wrapper")), bool(case.get("tags")), case.get("ids"), bool(case.get("hetero")), [o[0] if o[0] != "mutate" else o[0] + ":" + o[2] for o in case["ops"]]])
 
     def nontrivial(self, case, obs):
         ops = case["ops"]
